@@ -27,9 +27,9 @@ LM = ('wait', 'nowait', 'skip_locked')
 def plan(tier):
     if tier == 'quick':
         return [
-            dict(name='c35-locker-vs-writer', how='graph', limit=560,
-                 cfg=dict(NS=2, NO=1, MaxOps=2, Modes1=('opt', 'ser'), OpSet1=LOCKER, Modes=('opt', 'imm', 'ser'),
-                          OpSet=WRITER, LockModes=LM)),
+            dict(name='c35-locker-vs-writer', how='graph', limit=520,
+                 cfg=dict(NS=2, NO=1, MaxOps=2, Modes1=('opt', 'ser'), OpSet1=LOCKER, Modes=('opt', 'imm'),
+                          OpSet=('W', 'D'), LockModes=LM)),
             dict(name='c35-2rows', how='graph', limit=240,
                  cfg=dict(NS=2, NO=2, MaxOps=2, Modes1=('opt',), OpSet1=('GFU', 'W'), Modes=('opt',),
                           OpSet=('W', 'D'), LockModes=('wait',))),
